@@ -5,6 +5,8 @@ import os
 import numpy as np
 
 from .. import engine, optics as op, refmodel as rm
+from .. import histories
+from ..histories import t_callhist        # worker task of the history harness (mc/histories.py)
 
 PID = 'C07'
 MOD = 'mc.props.c07'
@@ -419,6 +421,7 @@ def run(tier, seed, acc, procs=None):
         acc.states += 1
         for ev in enabled(s0):
             tasks.append(('t_bfs', {'seed': seed, 'depth': depth if init != 'tiny_pixelscale' else 2, 'init': init, 'first': ev}))
+    tasks += histories.tasks_for(PID, seed)        # pairwise call histories over the operations this property is anchored in
     engine.run_parallel(MOD, tasks, acc, procs)
     return {
         'rule': 'breadth-first search over chains of plane multiplications (14 plane kinds: default, pupils, segmented with '
@@ -438,6 +441,9 @@ def run(tier, seed, acc, procs=None):
 
 
 def replay(case, acc):
+    if case.get('kind') == 'histop':
+        import os as _os
+        return histories.chk_case(case, acc, int(_os.environ.get('VERIF_SEED', '0') or 0))
     seed = int(os.environ.get('VERIF_SEED', '0') or 0)
     st = build(case['init'], seed)
     check(st, {'init': case['init'], 'events': []}, acc)
